@@ -438,7 +438,7 @@ class Program:
                     d = json.load(fh)
             except OSError:
                 raise AnalysisError("pcstatic/reference_names.json is missing (tools/gen_reference_names.py)")
-            cls._REF = (frozenset(d["functions"]), frozenset(d["classes"]), frozenset(d.get("globals", ())))
+            cls._REF = (frozenset(d["functions"]), frozenset(d["classes"]), frozenset(d.get("globals", ())), {k: frozenset(v) for k, v in d.get("params", {}).items()})
         return cls._REF
 
     def is_new_function(self, fi):
@@ -448,6 +448,35 @@ class Program:
         if fi.cls is not None and fi.cls.name not in classes:
             return True
         return fi.name not in fns
+
+    def is_unpassed_new_param(self, fi, pname):
+        """`pname` is a parameter with a default that the reference tree's function of that name does not have (a
+        refactoring added an option) and that no call site in the repository supplies: inside the repository it always
+        holds its default."""
+        ref = self._reference()[3].get(fi.name)
+        if ref is None or pname in ref:
+            return False
+        a = fi.node.args
+        pos = [x.arg for x in a.posonlyargs + a.args]
+        has_default = (pname in pos and pos.index(pname) >= len(pos) - len(a.defaults)) or any(x.arg == pname and d is not None for x, d in zip(a.kwonlyargs, a.kw_defaults))
+        if not has_default:
+            return False
+        idx = pos.index(pname) if pname in pos else None
+        for m in self.modules.values():
+            for c in ast.walk(m.tree):
+                if not isinstance(c, ast.Call):
+                    continue
+                f = c.func
+                nm = f.attr if isinstance(f, ast.Attribute) else (f.id if isinstance(f, ast.Name) else None)
+                if nm != fi.name and not (fi.name == "__init__" and fi.cls is not None and nm == fi.cls.name):
+                    continue
+                if any(isinstance(x, ast.Starred) for x in c.args) or any(k.arg is None or k.arg == pname for k in c.keywords):
+                    return False
+                if idx is not None:
+                    shift = 1 if (fi.cls is not None and "staticmethod" not in fi.decorators and pos and pos[0] in ("self", "cls")) else 0
+                    if len(c.args) > idx - shift:
+                        return False
+        return True
 
     def is_new_global(self, name):
         """A module-level immutable table / constant of the repository that the reference tree does not have (introduced
